@@ -19,7 +19,7 @@ from fiddle._src.codegen import new_codegen
 from fiddle._src.codegen import py_val_to_cst_converter
 from fiddle._src.codegen.auto_config import experimental_top_level_api as ac_codegen
 
-from harness import common, l2, c02, c09, c10
+from harness import common, l2, c02, c06, c09, c10
 from harness.common import Failure, Result, Stream, g_list, g_pair, g_N, g_nat
 
 COQ_TARGETS = ["theories/C12Check.vo", "theories/C11Hyps.vo"]
@@ -37,6 +37,7 @@ KNOWN_MULTI_TAGS = "C12/auto-config-codegen-several-tags-on-one-argument"
 KNOWN_SPECIAL_FLOAT = "C12/special-floats-emitted-as-names"
 KNOWN_SUBFIXTURE_SHARING = "C12/sub-fixture-used-by-two-fixtures-loses-sharing"
 KNOWN_SYMBOL_KEYS = "C12/dict-keys-that-are-symbols-emitted-without-import"
+KNOWN_SHARED_ARGFACTORY = "C12/auto-config-codegen-shared-argfactory-emitted-once-per-reference"
 
 
 def has_symbol_key(root) -> bool:
@@ -128,6 +129,32 @@ EXTRA_LEAVES = [float("inf"), float("-inf"), 1e300, -0.0, 2.5e-7, 3 + 4j, comple
                 {1, 2}, frozenset(), set(), ("k", 1), l2.Color.RED, int, l2.Ka, l2.fa, dict, 10**30, -7, "q'\"\\n", ...]
 
 
+def make_positional_gap(rng, root) -> bool:
+  """Unsets the FIRST positional argument of a Buildable that has later positional arguments (e.g.
+  `cfg = Config(f, 1, 2); del cfg[0]` for def f(r=0, s=8, /)): the arguments can no longer be written as a
+  call with positional arguments, so the generators must refuse (or express it some other way)."""
+  cands = [b for b in reach(root) if isinstance(b, config_lib.Buildable)
+           and not isinstance(b, config_lib.TaggedValueCls)
+           and 0 in b.__arguments__ and 1 in b.__arguments__
+           and (b.__signature_info__.var_positional_start is None or b.__signature_info__.var_positional_start > 0)]
+  if not cands:
+    return False
+  b = rng.choice(cands)
+  try:
+    del b[0]
+  except (IndexError, KeyError, TypeError, ValueError, AttributeError):
+    return False
+  return 0 not in b.__arguments__ and 1 in b.__arguments__
+
+
+def fr(n=1, m=None) -> l2.Ka:
+  """A callable whose return annotation is a class (the generators derive the fixture's return type)."""
+  return l2._rec("fr", locals())  # pylint: disable=protected-access
+
+
+fr.__annotations__["return"] = l2.Ka     # a class object (this module postpones the evaluation of annotations)
+
+
 def gen_config(rng):
   root, pool = l2.gen_dag(rng, rng.randint(1, 9), buildable_types=("Config", "Config", "Partial"),
                           with_tags=rng.random() < 0.3, p_share=0.45)
@@ -164,12 +191,20 @@ def gen_config(rng):
   r_af = rng.random()
   if r_af < 0.15:
     root = fdl.Partial(l2.fa, a=fdl.ArgFactory(l2.Ka, p=root), b=fdl.ArgFactory(l2.fd))
+  elif 0.3 <= r_af < 0.36:
+    # ONE ArgFactory object used for two arguments
+    af = fdl.ArgFactory(l2.Ka, p=root)
+    root = fdl.Partial(l2.fa, a=af, b=af) if rng.random() < 0.5 else fdl.Partial(l2.fd, x=af, y=[1], z=af)
   elif r_af < 0.3:
     # a Partial with an ArgFactory argument AND an ordinary argument; a node below the factory is also
     # referenced from the ordinary side
     shared_node = rng.choice([root, [1, 2], fdl.Config(l2.Kb, p=3)])
     root = fdl.Partial(l2.fa, a=fdl.ArgFactory(l2.Ka, p=shared_node, q=[shared_node]),
                        b=rng.choice([shared_node, [shared_node], {"k": shared_node}]))
+  if rng.random() < 0.12:
+    make_positional_gap(rng, root)
+  if rng.random() < 0.1:
+    root = rng.choice([fdl.Config, fdl.Partial])(fr, n=root)
   # every tagged argument gets a value (precondition of the property) most of the time
   if rng.random() < 0.9:
     for b in reach(root):
@@ -205,6 +240,18 @@ def adversarial_names_config(rng):
     second2 = fdl.Config(l2.fd, **{nm: across}, k=2)
     root = fdl.Config(l2.fd, first=first, second=second2)
     subs = {"sub_fixture_0": first, "sub_fixture_1": second2}
+  if rng.random() < 0.3:
+    # nested sub-fixtures: p is shared by two sibling sub-fixtures that lie inside a third (p is declared in
+    # the enclosing one and handed down as a parameter named after its attribute); q is shared inside one
+    # of the siblings only, under the same attribute name
+    nm = rng.choice(["aa", "e", names[0]])
+    p_node = fdl.Config(l2.Ka, p=rng.randint(0, 9))
+    q_node = fdl.Config(l2.Kb, p=rng.randint(0, 9))
+    b1 = fdl.Config(l2.fd, **{nm: p_node})
+    b2 = fdl.Config(l2.fd, **{nm: q_node}, bb=q_node, cc=fdl.Config(l2.fd, **{nm: p_node}))
+    outer = fdl.Config(l2.fd, first=b1, second=b2)
+    root = fdl.Config(l2.fd, o=outer, k=3)
+    subs = {"sub_fixture_0": outer, "sub_fixture_1": b1, "sub_fixture_2": b2}
   return root, subs
 
 
@@ -256,6 +303,21 @@ def strip_sharing(t):
   return go(t)
 
 
+def with_argfactories_unshared(root):
+  """A deep copy of root in which every reference to an ArgFactory that is referenced more than once holds
+  its own shallow copy of it (what the auto_config generator emits: the factory expression inline, once per
+  reference; the factory's own arguments stay shared).  None if nothing of the kind is in root."""
+  cp = copy.deepcopy(root)
+  done = False
+  for af in [x for x in reach(cp) if isinstance(x, fdl.ArgFactory)]:
+    slots = c06.slots_holding(cp, af)
+    if len(slots) > 1:
+      for holder, k in slots[1:]:
+        c06.set_slot(holder, k, copy.copy(af))
+      done = True
+  return cp if done else None
+
+
 def classify(root, gen, problem, rebuilt, subs):
   """Known-finding key for a failure: each key is tied to the failure's own signature, so that any other
   failure on the same kind of input is still reported."""
@@ -274,6 +336,10 @@ def classify(root, gen, problem, rebuilt, subs):
     if relax_types(want) == relax_types(got):
       # the only difference: a NamedTuple came back as a tuple / a defaultdict as a dict
       return KNOWN_NAMEDTUPLE if has_namedtuple(root) else KNOWN_DEFAULTDICT
+    if gen == "auto":
+      unshared = with_argfactories_unshared(root)
+      if unshared is not None and canon(unshared) == got:
+        return KNOWN_SHARED_ARGFACTORY
     if subs and strip_sharing(relax_types(want)) == strip_sharing(relax_types(got)) \
         and (relax_types(want) == want or has_namedtuple(root) or has_defaultdict(root)):
       return KNOWN_SUBFIXTURE_SHARING
@@ -458,14 +524,24 @@ def correspondence_case(rng, res, intern, stream, idx):
   if has_namedtuple(root) or has_defaultdict(root):
     res.count("corr:outside-core")
     return
+  if rng.random() < 0.3 and make_positional_gap(rng, root):
+    res.count("corr:positional-gap")
   gen = rng.choice(["new", "auto"])
   fn = new_codegen.new_codegen if gen == "new" else ac_codegen.auto_config_codegen
   res.evaluations += 1
   res.count(f"corr:{gen}")
   replay = {"label": f"corr#{idx}", "generator": gen, "config": repr(root)[:1500]}
+  complexity = rng.choice([0, 1, 2, 3, 5]) if rng.random() < 0.35 else None
+  history = rng.random() < 0.2
+  if history:
+    res.count("corr:include_history")
+    replay["include_history"] = True
+  if complexity is not None:
+    res.count("corr:max_expression_complexity")
+    replay["max_expression_complexity"] = complexity
   try:
     with contextlib.redirect_stdout(io.StringIO()):
-      code = fn(root)
+      code = fn(root, max_expression_complexity=complexity, include_history=history)
   except Exception as e:  # pylint: disable=broad-except
     code = None
     res.count(f"corr:rejected:{type(e).__name__}")
@@ -484,8 +560,8 @@ def correspondence_case(rng, res, intern, stream, idx):
   except (l2.Cyclic, TypeError) as e:
     res.count("corr:unencodable")
     return
-  stream.add(f"(mkcase {enc.sigenv()} {heap} {r} {emitted})", meta=replay)
-  res.nontrivial({"h": heap, "g": gen})
+  stream.add(f"(mkcase {enc.sigenv()} {heap} {r} {emitted} {common.g_bool(complexity is None)})", meta=replay)
+  res.nontrivial({"h": heap, "g": gen, "x": complexity})
 
 
 def value_form(x, depth=0):
